@@ -229,9 +229,33 @@ def replay_violation(func, params, vio):
     return hit, info
 
 
+class _Watchdog(Exception):
+    pass
+
+
+def _alarm(signum, frame):
+    raise Inconclusive("job watchdog: a single path ran past the job time limit")
+
+
 def run_job(job):
     """Executed in a worker process. job: dict(harness, func, params, limits, seed, validate_every)"""
     t0 = time.time()
+    import signal
+    armed = False
+    try:
+        signal.signal(signal.SIGALRM, _alarm)
+        signal.setitimer(signal.ITIMER_REAL, job.get("limits", {}).get("job_timeout_s", 3600) + 60)
+        armed = True
+    except (ValueError, AttributeError):
+        pass
+    try:
+        return _run_job(job, t0)
+    finally:
+        if armed:
+            signal.setitimer(signal.ITIMER_REAL, 0)
+
+
+def _run_job(job, t0):
     try:
         hmod = importlib.import_module("harness." + job["harness"])
         func = getattr(hmod, job["func"])
